@@ -1043,6 +1043,24 @@ class Engine:
                         else:
                             outs.append(finish(sp, r))
             return outs
+        m = re.search(r"result::Result::<.*>::(map_or_else|map_or)(::<.*>)?$", nm)
+        if m and len(args) == 3:
+            meth = m.group(1)
+            v = self.deref_val(path, args[0]) if args[0][0] == "ref" else args[0]
+            if self.closure_target(path, args[2], []) is None or (meth == "map_or_else" and self.closure_target(path, args[1], []) is None):
+                return None
+            outs = []
+            for var, p in variants(v, "Ok", "Err"):
+                x = payload(v, var)
+                if var == "Err" and meth == "map_or":
+                    outs.append(finish(p, args[1]))
+                    continue
+                rs = self.call_closure(p, bb, args[2] if var == "Ok" else args[1], [x])
+                if rs is None:
+                    return None
+                for r, sp in rs:
+                    outs.append(dead(sp) if r is None else finish(sp, r))
+            return outs
         m = re.search(r"result::Result::<.*>::(map|map_err|and_then|unwrap_or_else|or_else)(::<.*>)?$", nm)
         if m and args:
             meth = m.group(1)
